@@ -18,7 +18,7 @@ def run(cmd, **kw):
 
 
 def lane(k):
-    wt = "/tmp/mw-%d" % k
+    wt = "%s-%d" % (os.environ.get("MW_PREFIX", "/tmp/mw"), k)
     if not os.path.exists(wt):
         run(["git", "-C", "/repo", "worktree", "add", "-q", "--detach", wt, "HEAD"])
     while True:
